@@ -86,6 +86,22 @@ def tag_instances(tier, seed):
                     edges=[edge_node("next", "fold", alias="a", props=[prop_node("val", outputs=["av"], filters=[FTag(">=", "t"), FTag("<=", "u")])])])
     for q in (twice, two):
         for gi in range(3): out.append(make_instance(0, sc, gen_graph(rng, sc, 5), q, {}, cls={"family": "tags", "uses": ["special"]}))
+    # several DIFFERENT tags imported into one fold and consumed at different vertices of its body (the order of the import list, and of the
+    # property lookups made before entering the fold, must be a function of the query)
+    root3 = [prop_node("id", outputs=["rid"]), prop_node("val", tags=["t"]), prop_node("name", tags=["u"]), prop_node("id", alias="id3", tags=["w"])]
+    def body(kind):
+        inner_props = [prop_node("name", outputs=["in"], filters=[FTag("!=", "u")])]
+        deep = [prop_node("id", outputs=["dp"], filters=[FTag(">=", "w")])]
+        if kind == "plain": inner = [edge_node("peer", "plain", alias="q", props=inner_props)]
+        elif kind == "optional": inner = [edge_node("peer", "optional", alias="q", props=inner_props)]
+        elif kind == "two_levels": inner = [edge_node("peer", "plain", alias="q", props=inner_props, edges=[edge_node("next", "optional", alias="d", props=deep)])]
+        elif kind == "siblings": inner = [edge_node("peer", "optional", alias="q", props=inner_props), edge_node("next", "optional", alias="d", props=deep)]
+        else: inner = [edge_node("next", "fold", alias="q", props=inner_props)]
+        return edge_node("next", "fold", alias="a", props=[prop_node("val", outputs=["av"], filters=[FTag("<=", "t")])], edges=inner)
+    for kind in ("plain", "optional", "two_levels", "siblings", "nested_fold"):
+        q = edge_node("Nodes", props=copy.deepcopy(root3) if kind in ("two_levels", "siblings") else copy.deepcopy(root3[:3]), edges=[body(kind)])
+        for gi in range(2 if tier == "quick" else 4):
+            out.append(make_instance(0, sc, gen_graph(rng, sc, 5), q, {}, cls={"family": "tags", "uses": ["multi_import", kind]}))
     return out
 
 def systematic_instances(tier, seed):
